@@ -204,7 +204,10 @@ fn adversarial(ctor: Ctor, gen: usize, len: usize) -> (u64, u64, Vec<Viol>) {
             6 => if i >= 65_540 * w { 2 } else if pos_in_window == 0 { 0 } else { 3 }, // late flood: after more than 65536 windows every add is c, until c exceeds epsilon*n
             // a twice in the first window, then once right after every boundary: at the end of window k it has k+1 occurrences, one more
             // than the window index - it must survive every pruning (width sweep: the window index is computed per width)
-            _ => if pos_in_window == 0 || i == 1 { 0 } else { 3 },
+            7 => if pos_in_window == 0 || i == 1 { 0 } else { 3 },
+            // every window ENDS on an element that is already tracked (a at its last two positions), everything else is new:
+            // the pruning pass at the boundary must not depend on what kind of element closes the window
+            _ => if pos_in_window + 2 >= w { 0 } else { 3 },
         };
         stream.push(sym);
         // very long streams: add()'s contract at every step, the full threshold oracle at every 16th prefix
@@ -242,13 +245,13 @@ fn main() {
                 jobs.push((c, first, depth - 2));
             }
         }
-        for g in 0..5 {
+        for g in [0, 1, 2, 3, 4, 8] {
             jobs.push((c, -1 - g, if thorough { 30_000 } else { 4_000 }));
         }
     }
     // large widths for the adversarial generators
     for c in [Ctor::Width(50), Ctor::Eps(0.013), Ctor::Width(7), Ctor::Width(300), Ctor::Eps(0.0021)] {
-        for g in 0..5 {
+        for g in [0, 1, 2, 3, 4, 8] {
             jobs.push((c, -1 - g, if thorough { 60_000 } else { 8_000 }));
         }
     }
